@@ -326,6 +326,10 @@ func newEventFromUntrustedJSONV1(eventJSON []byte, roomVersion IRoomVersion) (PD
 	if err := json.Unmarshal(eventJSON, &res); err != nil {
 		return nil, err
 	}
+	if res == nil {
+		// the JSON text "null" unmarshals into a nil pointer
+		return nil, fmt.Errorf("gomatrixserverlib NewEventFromUntrustedJSON: event is not a JSON object")
+	}
 
 	if err := checkID(res.eventFields.RoomID, "room", '!'); err != nil {
 		return nil, err
